@@ -331,7 +331,10 @@ def pipeline(ck, quick):
   for i in range(8 if quick else 48):
     tree = TREES[i % len(TREES)]
     jobs.append({"shapes": tree, "base": [2, 1, 3][i % 3], "T": 4, "T2": 3, "seed": int(rs.randint(1 << 30)),
-                 "rule": rules[i % len(rules)], "avg": bool((i // 2) % 2), "decay": [1.0, 0.75][(i // 3) % 2],
+                 "rule": rules[i % len(rules)], "avg": bool((i // 2) % 2),
+                 # the ggt rules score the moving Gram matrix, which with decay 1 stays exactly 0 (weight 1 - decay):
+                 # ggt_intrinsic_rank is then 0/0 = NaN, not a "non-negative score" C17 speaks about
+                 "decay": 0.75 if rules[i % len(rules)].startswith("ggt") else [1.0, 0.75][(i // 3) % 2],
                  "scales": [float(10.0 ** rs.uniform(-2, 2)) for _ in tree], "pipeline": True,
                  "kind": "pipeline", "layers": tree, "scores": {}})
   res = core.run_workers("harness.workers.realloc_consume", jobs, work=ck.work, chunk=1)
